@@ -32,7 +32,7 @@ fn main() {
     for b in ["Holes", "Kept", "Mixed"] {
         run.floor(&format!("allocation_bursts:{b}"), 1);
     }
-    run.floor("workloads_starting_without_any_index", t.pick(3, 100));
+    run.floor("workloads_starting_without_any_index", t.pick(3, 20));
     run.floor("unknown_outcome_faults_fired", 20);
     run.floor("fcc_recoveries_audited", 50);
     run.floor("fcc_continued_on_live_handle", 10);
